@@ -23,7 +23,7 @@ for sid in ids:
     if r.returncode != 0:
         print(sid, "patch does not apply:", r.stderr[:200]); continue
     try:
-        for c in CHECKS.get(sid, [sid.split("-")[0]]):
+        for c in CHECKS.get(sid, [sid[:3]]):
             shutil.rmtree(OUT, ignore_errors=True); os.makedirs(OUT)
             shutil.copy("/verif/known_findings.json", OUT)
             t0 = time.time()
